@@ -94,6 +94,26 @@ Theorem C06_hb_step_is_exec : forall auto next s, (next <=? s)%N = true ->
   hb_step auto next s = (true, fst (hb_exec (fun x => (x + auto)%N) hb_order_step next None)).
 Proof. exact hb_step_is_exec. Qed.
 
+(* "is a snapshot due" is tested with <= in all three branches (operator regenerated from the C text) ... *)
+Theorem C06_thresholds_compared_with_le :
+  hb_cmp_interval = CmpLe /\ hb_cmp_step = CmpLe /\ hb_cmp_walltime = CmpLe.
+Proof. exact thresholds_compared_with_le. Qed.
+
+(* ... hence overdue => written at the first opportunity: a heartbeat that finds next_step in the past (the simulation
+   moved past it without a heartbeat: manual step()/steps(k), or a phase without an attached archive) writes the
+   snapshot now and stays on the original grid; a threshold in the future writes nothing *)
+Theorem C06_overdue_written_at_once : forall auto next x r, (next <= x)%N ->
+  exists out fin, hb_seq hb_cmp_step auto next (x :: r) = (x :: out, fin) /\
+                  hb_seq hb_cmp_step auto (next + auto)%N r = (out, fin).
+Proof. exact overdue_written_at_once. Qed.
+Print Assumptions C06_overdue_written_at_once.
+Theorem C06_not_due_no_snapshot : forall auto next x r, (x < next)%N ->
+  hb_seq hb_cmp_step auto next (x :: r) = hb_seq hb_cmp_step auto next r.
+Proof. exact not_due_no_snapshot. Qed.
+Theorem C06_hb_seq_consecutive : forall auto n next s,
+  fst (hb_seq hb_cmp_step auto next (nseq s n)) = hb_run auto next s n.
+Proof. exact hb_seq_consecutive. Qed.
+
 (* automatic snapshots by step count: exactly at steps_done = s0 + j*auto *)
 Theorem C06_cadence_step : forall auto s0 n x, 0 < auto ->
   In x (hb_run auto s0 s0 n) <-> (s0 <= x < s0 + N.of_nat n /\ (x - s0) mod auto = 0).
